@@ -55,27 +55,28 @@ theorem pushByteElems_completeH (ext : Ext) (large : Bool) : ∀ (bs : Bytes) (e
 
 theorem endFields_completeH : ∀ (fs : BL) (seen : List Bool) (sfs : Fields),
     (∀ j c m, fs.get? j = some (c, m) → WFH c) → ShapeL fs sfs → totalFs sfs = true → seen.length = fs.length →
-    EndOK seen sfs → ∃ fs', endFields fs seen = .ok fs' ∧ roomL fs' = roomL fs
-  | .nil, _, _, _, _, _, _, _ => ⟨.nil, by simp [endFields], rfl⟩
-  | .cons b m r, [], _, _, _, _, hl, _ => by simp [BL.length] at hl
-  | .cons b m r, s :: ss, .nil, _, hs, _, _, _ => by simp [ShapeL] at hs
-  | .cons b m r, s :: ss, .cons (.mk fname fdt fn fmd) rest, hw, hs, ht, hl, he => by
+    EndOK seen sfs → 1 ≤ roomL fs → ∃ fs', endFields fs seen = .ok fs' ∧ roomL fs ≤ roomL fs' + 1
+  | .nil, _, _, _, _, _, _, _, _ => ⟨.nil, by simp [endFields], Nat.le_add_right _ _⟩
+  | .cons b m r, [], _, _, _, _, hl, _, _ => by simp [BL.length] at hl
+  | .cons b m r, s :: ss, .nil, _, hs, _, _, _, _ => by simp [ShapeL] at hs
+  | .cons b m r, s :: ss, .cons (.mk fname fdt fn fmd) rest, hw, hs, ht, hl, he, hk => by
+    simp only [roomL] at hk
     simp only [ShapeL] at hs
     simp only [totalFs, totalF, Bool.and_eq_true] at ht
     obtain ⟨r', hr', hroom⟩ := endFields_completeH r ss rest (fun j c m' h => hw (j + 1) c m' (by simpa [BL.get?] using h))
-      hs.2.2.2 ht.2 (by simpa [BL.length] using hl) (fun j f hj => by simpa [Fields.toList] using he (j + 1) f (by simpa [Fields.toList] using hj))
+      hs.2.2.2 ht.2 (by simpa [BL.length] using hl) (fun j f hj => by simpa [Fields.toList] using he (j + 1) f (by simpa [Fields.toList] using hj)) (by omega)
     cases s with
     | true =>
-      refine ⟨.cons b m r', ?_, by simp only [roomL, hroom]⟩
+      refine ⟨.cons b m r', ?_, by simp only [roomL]; omega⟩
       simp only [endFields, if_true]
       exact (bind_ok _ _ _).2 ⟨_, hr', rfl⟩
     | false =>
       have h0 := he 0 (.mk fname fdt fn fmd) (by simp [Fields.toList])
       simp only [List.getD_cons_zero, Bool.false_eq_true, false_or, Field.nullable, Field.dataType, Field.metadata] at h0
       obtain ⟨hn, lv, hlv⟩ := h0
-      obtain ⟨b', hb', hrb⟩ := pushNone_completeH b fdt fn fmd lv (hw 0 b m rfl) hs.2.2.1 ht.1 hlv
+      obtain ⟨b', hb', hrb⟩ := pushNone_completeH b fdt fn fmd lv (hw 0 b m rfl) hs.2.2.1 ht.1 hlv (by omega)
       have hmn : (!m.nullable) = false := by rw [hs.2.1, hn]; rfl
-      refine ⟨.cons b' m r', ?_, by simp only [roomL, hroom, hrb]⟩
+      refine ⟨.cons b' m r', ?_, by simp only [roomL]; omega⟩
       simp only [endFields, Bool.false_eq_true, if_false, hmn]
       exact (bind_ok _ _ _).2 ⟨_, hb', (bind_ok _ _ _).2 ⟨_, hr', rfl⟩⟩
 
@@ -91,13 +92,13 @@ theorem record_completeH {p len v fs cached next seen} {pf : SS → R SS} {sfs :
     {md : Metadata} {collect : Field → R (List LVal)} {cost : Nat} {lv : LVal}
     (hg : GoodH (.struct p len v fs cached next seen) (.struct sfs) n md)
     (hpf1 : FieldsOKH pf) (hskel : ∀ s1 s2, pf s1 = .ok s2 → SSkel s2 s1)
-    (hpf : FieldsCompH sfs collect cost pf) (hr : cost ≤ roomL fs)
+    (hpf : FieldsCompH sfs collect cost pf) (hr : cost + 1 ≤ roomL fs)
     (hi : structOf sfs.toList collect = .ok lv) :
     ∃ b', (do
       let s ← SS.start ⟨p, len, v, fs, cached, next, seen⟩
       let s ← pf s
       let s ← s.finishRow
-      pure s.toB : R B) = .ok b' ∧ roomL fs ≤ room b' + cost := by
+      pure s.toB : R B) = .ok b' ∧ roomL fs ≤ room b' + (cost + 1) := by
   have hw := hg.wf
   simp only [WFH] at hw
   obtain ⟨hv, hwfl, hseen, hnd, hcache⟩ := hw
@@ -112,18 +113,19 @@ theorem record_completeH {p len v fs cached next seen} {pf : SS → R SS} {sfs :
   obtain ⟨v', hv'⟩ := setValidity_true_total v len
   have hmid : MidH fs ⟨p, len + 1, v', fs, cached, 0, List.replicate seen.length false⟩ (List.replicate fs.length []) :=
     ⟨by simpa using ExtLH.refl fs len hwfl, by rw [hseen]; exact Flags.fresh _, hcache, hsafe, hnd⟩
-  obtain ⟨s2, h2, hend, hroom⟩ := hpf fs _ _ hmid hsl rfl (by simp [hseen]) hr (fun j f hj => structOf_inv hi j f hj)
+  obtain ⟨s2, h2, hend, hroom⟩ := hpf fs _ _ hmid hsl rfl (by simp [hseen]) (show cost ≤ roomL fs by omega) (fun j f hj => structOf_inv hi j f hj)
   obtain ⟨⟨adds2, hm2⟩, _⟩ := hpf1 _ _ _ _ hmid h2
   have hsl2 : ShapeL s2.fields sfs := ShapeL.of_takeRest (hskel _ s2 h2).2.2.1 hsl
   obtain ⟨fs3, h3, hr3⟩ := endFields_completeH s2.fields s2.seen sfs
-    (fun j c m h => ExtLH.get _ _ _ j (c, m) hm2.ext h) hsl2 ht.1 hm2.adds_length.2.1 hend
+    (fun j c m h => ExtLH.get _ _ _ j (c, m) hm2.ext h) hsl2 ht.1 hm2.adds_length.2.1 hend (by simp only at hroom; omega)
   refine ⟨SS.toB { s2 with fields := fs3 }, ?_, ?_⟩
   · refine (bind_ok _ _ _).2 ⟨_, ?_, (bind_ok _ _ _).2 ⟨s2, h2, (bind_ok _ _ _).2 ⟨{ s2 with fields := fs3 }, ?_, rfl⟩⟩⟩
     · simp only [SS.start]
       exact (bind_ok _ _ _).2 ⟨v', hv', rfl⟩
     · simp only [SS.finishRow]
       exact (bind_ok _ _ _).2 ⟨fs3, h3, rfl⟩
-  · simp only [SS.toB, room, hr3]
-    simpa using hroom
+  · simp only [SS.toB, room]
+    simp only at hroom
+    omega
 
 end SaModel.Build
